@@ -412,7 +412,11 @@ func runCheck(P *Program, DB *ContractDB, prop, tier string, only string) *check
 			defer wg.Done()
 			sem <- struct{}{}
 			defer func() { <-sem }()
-			r := Solve(o.Script(), dir, fmt.Sprintf("o%04d", i), timeout, tier == "thorough" && !o.MustFail)
+			to := timeout
+			if o.MustFail && to > 6 {
+				to = 6 // vacuity probes are expected NOT to be refutable: do not wait for the full budget
+			}
+			r := Solve(o.Script(), dir, fmt.Sprintf("o%04d", i), to, tier == "thorough" && !o.MustFail)
 			o.Result = &r
 			rec := oblRecord{Name: o.Name, Kind: o.Kind, Func: o.Func, Clause: o.Clause, Pos: o.Pos, Verdict: r.Verdict, Solver: r.Solver, TimeS: r.TimeS, Raw: r.Raw, Confirm: r.Confirm, Claimed: o.Claimed}
 			switch {
